@@ -356,7 +356,9 @@ class ModelCfitExtended(Model):
 
         """
         var = self.vm.trainable_variables
-        sw = tf.reduce_sum(weight)
+        weight = list(weight)
+        # the last batch may be shorter: sum batch by batch
+        sw = tf.reduce_sum([tf.reduce_sum(i) for i in weight])
         mcdata = list(mcdata)
         mc_weight = list(mc_weight)
         int_sig, g_int_sig = sum_gradient(self.sig, mcdata, var, mc_weight)
